@@ -309,6 +309,10 @@ def call(self, e, st):
         if nm in ("all", "any") and len(e.args) == 1 and isinstance(e.args[0], ast.GeneratorExp):
             yield self.quant_over(e.args[0], st, None, nm == "all")
             return
+        if nm == "next" and len(e.args) == 1 and isinstance(e.args[0], ast.GeneratorExp) and not self.spec \
+                and len(e.args[0].generators) == 1:
+            yield from self.next_of_genexp(e.args[0], st)
+            return
         if nm == "tuple" and len(e.args) == 1 and isinstance(e.args[0], ast.GeneratorExp) and not self.spec:
             g = e.args[0]
             elt = g.elt
@@ -1095,6 +1099,42 @@ def bulk_sets(self, g, st, want):
     st.assume(z3.Length(rs) == n)
     st.assume(z3.ForAll([j], z3.Implies(z3.And(0 <= j, j < n), rs[j] == base + j)))
     return Val(Seq(stt), rs)
+
+
+def next_of_genexp(self, g, st):
+    """next(<elt> for x in src if cond): generators are lazy -- the element expression is evaluated (with its side effects) for
+    the FIRST position whose filter holds and for no other; StopIteration when no position qualifies.  The filters are read
+    in the state before the call (they must be free of side effects: they are evaluated on a scratch copy)."""
+    view, bind, ifs, s1 = self.comp_view(g, st)
+    st.pc[:] = s1.pc
+    st.heap = s1.heap
+    n = view.length
+    st.assume(n >= 0)
+
+    def keep_at(j):
+        sj = st.copy()
+        self.muted += 1
+        try:
+            s2 = bind(j, sj)
+            cs = []
+            for c in ifs:
+                cv, s2 = self.ev1(c, s2)
+                cs.append(self.truth(cv, s2))
+        finally:
+            self.muted -= 1
+        return z3.And(*cs) if cs else z3.BoolVal(True)
+    j = fresh("nj", z3.IntSort())
+    keep_j = keep_at(j)
+    m = fresh("first", z3.IntSort())
+    none = z3.ForAll([j], z3.Implies(z3.And(0 <= j, j < n), z3.Not(keep_j)))
+    self.fork_raise(st, none, "StopIteration")
+    st.assume(z3.And(0 <= m, m < n, z3.substitute(keep_j, (j, m))))
+    st.assume(z3.ForAll([j], z3.Implies(z3.And(0 <= j, j < m), z3.Not(keep_j))))
+    self.assume_log("next(<generator expression>): lazy -- only the first kept position's element is evaluated; filters are pure")
+    s_m = bind(m, st)
+    for v, s2 in self.ev(g.elt, s_m):
+        out = State(st.env, s2.heap, s2.pc, s2.next_ref, s2.ghost, s2.labels)
+        yield v, out
 
 
 def bulk_empty_lists(self, g, st, want):
